@@ -23,6 +23,7 @@ EXTENDS Integers, Sequences, FiniteSets, FiniteSetsExt, TLC
 CONSTANT Relax      \* subset of {"C01", "C05", "C09", "C10", "C12"}; {} in every registered check
 G1(p) == ("C01" \in Relax) \/ p      \* commitment contents, agreement, conservation, limits
 G5(p) == ("C05" \in Relax) \/ p      \* revocation discipline, commitment numbering
+G2(p) == ("C02" \in Relax) \/ p      \* forwarding: terms, claim-if-known, fail-only-when-dead, no loss
 G9(p) == ("C09" \in Relax) \/ p      \* monitor-update ordering and release conditions
 G10(p) == ("C10" \in Relax) \/ p     \* restart: stale managers close, others resume
 G12(p) == ("C12" \in Relax) \/ p     \* serialization round trips
